@@ -463,6 +463,9 @@ class SignatureV4(Signature):
 
     def parse(self, packet):
         super(Signature, self).parse(packet)
+        # octets left in the buffer once the version octet is gone
+        plen = len(packet)
+
         self.sigtype = packet[0]
         del packet[0]
 
@@ -477,7 +480,10 @@ class SignatureV4(Signature):
         self.hash2 = packet[:2]
         del packet[:2]
 
-        self.signature.parse(packet)
+        # bound the signature material to the remaining length of the packet
+        send = self.header.length - 1 - (plen - len(packet))
+        self.signature.parse(packet[:send])
+        del packet[:send]
 
 
 class SKESessionKey(VersionedPacket):
